@@ -72,10 +72,21 @@ Definition set_send_lock (s : shared) (b : bool) := {| wbio := wbio s; deque := 
 Definition set_recv_lock (s : shared) (b : bool) := {| wbio := wbio s; deque := deque s; send_lock := send_lock s; recv_lock := b; feeds := feeds s |}.
 Definition set_feeds (s : shared) (n : nat) := {| wbio := wbio s; deque := deque s; send_lock := send_lock s; recv_lock := recv_lock s; feeds := n |}.
 
+(* where a task goes when it reaches a flush point.  Unpatched code always queues on the send lock (PFlush); with
+   meta/fixes/C08_send_lock_only_if_pending.diff (regenerated flag send_lock_only_if_pending) it takes the lock only if
+   the outgoing BIO is not empty — otherwise it goes on at once, without a checkpoint.  WANT_WRITE always flushes. *)
+Definition wbio_empty (s : shared) : bool := match wbio s with [] => true | _ => false end.
+Definition flush_pc (s : shared) (k : cont) : pc :=
+  match k with
+  | KLoop => PFlush KLoop
+  | KRead n => if send_lock_only_if_pending && wbio_empty s then PRecvWait n else PFlush k
+  | KRet v => if send_lock_only_if_pending && wbio_empty s then PEnd (ROk v) else PFlush k
+  end.
+
 (* entering the method: __write_all_to_ssl_object with an empty backlog returns without touching the SSL object *)
 Definition pcall (m : meth) (s : shared) : pc :=
   match m, deque s with
-  | MWrite, [] => PFlush (KRet 0)
+  | MWrite, [] => flush_pc s (KRet 0)
   | _, _ => PCall
   end.
 
@@ -132,12 +143,12 @@ Definition step (m : meth) (bufsize : nat) (s : shared) (p : pc) (l : lab) : opt
                           end in
                 let s2 := set_deque s1 d' in
                 match d' with
-                | [] => Some (s2, PFlush (KRet 0), [])
+                | [] => Some (s2, flush_pc s2 (KRet 0), [])
                 | _ => Some (s2, PCall, [])
                 end
-            | _ => Some (s1, PFlush (KRet v), [])
+            | _ => Some (s1, flush_pc s1 (KRet v), [])
             end
-        | SWantRead => Some (s1, PFlush (KRead (feeds s1)), [])
+        | SWantRead => Some (s1, flush_pc s1 (KRead (feeds s1)), [])
         | SWantWrite => Some (s1, PFlush KLoop, [])
         | SErr e => Some (s1, PEnd (RSsl e), [AReof; AWeof])
         | SOSErr => Some (s1, PEnd ROSErr, [])
